@@ -146,10 +146,48 @@ func genOutput(r *rand.Rand, lines int, maxLine int, nl string, withEsc, withMB 
 	return g
 }
 
+// cliMarks / ncMarks: bytes around which the "marks" segmentation mode places its cuts.
+const cliMarks = "\n\r#>$:\x1b \x07"
+const ncMarks = "#]<>\n\"=/"
+
+// cutLists is the cut enumeration: the list of read-boundary sets (one sub-run each) for the
+// peer->client stream offsets lo..hi of a base scenario that ran clean. Every single cut position
+// k (a read ends right after byte k, everything else is delivered whole), plus pairs of cuts a few
+// bytes apart. In the quick tier a contiguous window of at most quickMax positions is taken.
+func cutLists(lo, hi int, tier string, r *rand.Rand, quickMax int) [][]int {
+	if lo < 1 {
+		lo = 1
+	}
+	from, to := lo, hi-1
+	if to < from {
+		return nil
+	}
+	quick := tier != "thorough"
+	if quick && to-from+1 > quickMax {
+		from += r.IntN(to - from + 1 - quickMax + 1)
+		to = from + quickMax - 1
+	}
+	var out [][]int
+	for k := from; k <= to; k++ {
+		out = append(out, []int{k})
+	}
+	for k := from; k <= to; k++ {
+		if quick && k%4 != 0 {
+			continue
+		}
+		if d := 1 + r.IntN(8); k+d < hi {
+			out = append(out, []int{k, k + d})
+		}
+	}
+
+	return out
+}
+
 // genNet draws a segmentation/latency plan; rd is the channel read delay.
 func genNet(r *rand.Rand, rd time.Duration, seed uint64) simnet.NetPlan {
 	p := simnet.NetPlan{Seed: seed}
-	p.SegMode = pick(r, "whole", "one", "random", "small", "mixed", "mixed")
+	p.SegMode = pick(r, "whole", "one", "random", "small", "mixed", "mixed", "marks")
+	p.Marks = cliMarks
 	p.LatMode = pick(r, "zero", "fixed", "random", "trickle", "trickle")
 	mult := pick(r, 0, 1, 1, 2, 5, 20)
 	us := int64(rd/time.Microsecond) * int64(mult)
